@@ -75,15 +75,44 @@ impl<R: BufRead> Decoder<R> {
     pub fn read_line(&mut self) -> IoResult<Option<&str>> {
         self.read_buf.clear();
 
-        if self.read_until_newline()? == 0 {
-            return Ok(None);
-        }
+        loop {
+            if self.read_until_newline()? == 0 {
+                if self.read_buf.is_empty() {
+                    return Ok(None);
+                }
 
-        // Reading up to b'\n' will miss the final b'\0' for an UTF-16LE encoded
-        // string so we need to read an additional byte.
-        if self.encoding == Encoding::Utf16LE && self.read_buf.ends_with(b"\n") {
-            if let Some(byte) = self.read_byte()? {
-                self.read_buf.push(byte);
+                break;
+            }
+
+            if !self.read_buf.ends_with(b"\n") {
+                break;
+            }
+
+            // For UTF-16, the byte `\n` only denotes a line break if it is
+            // part of the code unit U+000A.
+            match self.encoding {
+                Encoding::Utf8 => break,
+                Encoding::Utf16BE => {
+                    let len = self.read_buf.len();
+
+                    if len % 2 == 0 && self.read_buf[len - 2] == 0 {
+                        break;
+                    }
+                }
+                Encoding::Utf16LE => {
+                    if self.read_buf.len() % 2 == 1 {
+                        // Reading up to b'\n' misses the high byte
+                        match self.read_byte()? {
+                            Some(0) => {
+                                self.read_buf.push(0);
+
+                                break;
+                            }
+                            Some(byte) => self.read_buf.push(byte),
+                            None => break,
+                        }
+                    }
+                }
             }
         }
 
